@@ -256,6 +256,23 @@ func checkDateTimeCore(c dCase) (site, msg string) {
 	if s := p.String(); s != text {
 		return "types.DateTime.String", fmt.Sprintf("date-time %s prints as %q", text, s)
 	}
+	// the same instant carried in other locations (the application converts a reading with .In(zone of the controller)) is
+	// encoded with the civil time of THAT location, also right after this one was encoded and also when the other location
+	// shares this zone's abbreviation and has another offset (CST is Chicago, Shanghai and Havana); this value keeps its own
+	abbr, off := time.Time(*p).Zone()
+	for _, l := range append(foreignLocations(), time.FixedZone(abbr, off-14*3600), time.FixedZone(abbr, off+5*3600+1800)) {
+		q := time.Time(*p).In(l)
+		if q.Year() < 1 || q.Year() > 9999 || q.IsZero() {
+			continue
+		}
+		wq := []byte{bcd(q.Year() / 100), bcd(q.Year() % 100), bcd(int(q.Month())), bcd(q.Day()), bcd(q.Hour()), bcd(q.Minute()), bcd(q.Second())}
+		if enc, err := types.DateTime(q).MarshalUT0311L0x(); err != nil || !bytes.Equal(enc, wq) {
+			return "types.DateTime.MarshalUT0311L0x/same-instant-other-location", fmt.Sprintf("date-time %s, converted to location %v (%s), encodes as %x (%v), want %x", text, l, q.Format("2006-01-02 15:04:05 MST -0700"), enc, err, wq)
+		}
+		if enc, err := p.MarshalUT0311L0x(); err != nil || !bytes.Equal(enc, wire) {
+			return "types.DateTime.MarshalUT0311L0x/after-other-location", fmt.Sprintf("date-time %s encodes as %x after the same instant was encoded in location %v", text, enc, l)
+		}
+	}
 	// decoded into a variable that was used before and holds a value in ANOTHER location (the application had converted an
 	// earlier reading with .In(zone of the controller)): what the controller sends is read in the process zone all the same
 	usedIn := foreignLocations()
